@@ -649,7 +649,7 @@ def run(chk, replay=None):
     drv = chk.get_driver()
     rng = chk.rng
     quick = chk.tier == 'quick'
-    ncirc = 60 if quick else 120
+    ncirc = 45 if quick else 120
     seeds = [0, 1] if quick else [0, 1, 2, 3, 4, 5, 6, 7]
     chk.coverage['rule'] = ('each case = (generated netlist, rewrite with its arguments, PYTHONHASHSEED); netlists: random '
                             'connected skeleton of 2-4 nodes whose branches are single elements, series chains (2-4 like '
